@@ -27,17 +27,17 @@ PROPS = {
              "Proof (Verus, unbounded) on payment_lifecycle/resolve as extracted from src/htlc_manager.rs: every Resolve answer carries a key that is the preimage of a completed outgoing part of this hash or of its durable Succeeded record (hence preimage_of(hash)); the pay request carries the invoice and hash of this lifecycle.",
              LIFE_NOTE, assumptions=A_WORLD,
              not_covered=["CLN's own verification of the key", "SHA-256 itself (preimage_of is uninterpreted)"]),
-    "C02": P(["lifecycle", "store", "provider", "handle"],
+    "C02": P(["lifecycle", "store", "provider", "handle", "waitpay"],
              "Proof (Verus, unbounded): at each of the ten resolve(..) call sites of payment_lifecycle a Fail answer requires !live(w) && !pay_running in the ghost world, starting from ANY world that satisfies only the durable invariant (every restart image), under the rely (every interleaving). Known finding F-C02-a (read error of the stored state) is reported per call site.",
              LIFE_NOTE, assumptions=A_WORLD,
              not_covered=["that CLN's pay is not still running after a plugin-only restart (not observable through the RPCs used)"]),
-    "C03": P(["lifecycle", "fee", "paystate", "provider"],
+    "C03": P(["lifecycle", "fee", "paystate", "provider", "waitpay"],
              "Proof (Verus): the single pay call site requires fee_rhs(policy, amount) <= held total, max_fee <= held total (as read at initiation) - amount, the amount rule, the invoice of this hash, and that the counted HTLCs are still unanswered.",
              LIFE_NOTE, assumptions=A_WORLD + ["sum of simultaneously held HTLC amounts < 2^64 msat"]),
     "C04": P(["lifecycle", "handle", "provider", "height"],
              "Proof (Verus): at the pay call site max_cltv_delta <= max(0, min expiry of the HTLCs held at initiation - height returned by current_height() - cltv_delta) and <= policy delta; the arithmetic of src/htlc_manager.rs:576-583 is verified in place.",
              LIFE_NOTE, assumptions=A_WORLD),
-    "C05": P(["lifecycle", "store", "provider"],
+    "C05": P(["lifecycle", "store", "provider", "waitpay"],
              "Proof (Verus): pay requires !live(w) && !pay_running; a Succeeded record is never followed by add_payment_attempt/pay; add_payment_attempt never overwrites a Succeeded record; the Free write of mark_failed is generation guarded (Released-phase rely).",
              LIFE_NOTE, assumptions=A_WORLD),
     "C06": P(["lifecycle", "fee", "paystate", "tlv_dec", "handle"],
@@ -48,7 +48,7 @@ PROPS = {
              "Proof (Verus, unbounded loop invariant): PaymentState::resolve gives every held listener exactly the one response and records it for late HTLCs; add_htlc never signals readiness once failure was requested; fail() is first-wins and only carries Fail; lifecycle resolves exactly once.",
              LIFE_NOTE + " oneshot::Sender::send is linear, so the prophecy `fate` is sound.", assumptions=A_WORLD,
              not_covered=["a rejecting HTLC arriving after readiness was signalled is by design ignored (statement says still-incomplete set)"]),
-    "C08": P(["lifecycle", "store", "provider"],
+    "C08": P(["lifecycle", "store", "provider", "waitpay"],
              "Proof (Verus): durable invariant inv(w) (live or pay running => record Pending|Succeeded; Succeeded holds preimage_of(hash)) is preserved by every atomic step of payment_lifecycle: pay requires a durable Pending; mark_failed requires (generation still matches => nothing live); mark_succeeded requires the preimage of a completed part; rely steps preserve inv (lemma_rely_preserves_inv). Every prefix of every execution therefore satisfies inv.",
              LIFE_NOTE, assumptions=A_WORLD, not_covered=["durability of CLN's datastore itself"]),
     "C09": P(["lifecycle", "store"],
